@@ -1,4 +1,5 @@
 import SshuttleModel.Code.Tunnel
+import SshuttleModel.Spec.Quiet
 open Sshuttle Sshuttle.Mux Sshuttle.Wrap Sshuttle.Tunnel
 
 def digest (b : Bytes) : String :=
@@ -112,6 +113,7 @@ def step (w : World) (line : String) : World × List String :=
         else w1
       (w2, showWorld w2)
   | ["#flush"] => (w, [])
+  | ["quiet"] => (w, [if quietB w then "quiet=1" else "quiet=0"])
   | "q" :: ws =>
     -- quiet: execute, print nothing
     match parseStep ws with
